@@ -4,40 +4,38 @@
 #ifndef CONGRUENCE_POST_H
 #define CONGRUENCE_POST_H
 #include "spec.h"
-extern i128 g_x, g_y, g_d;
+extern i128 g_x, g_y, g_d, g_e;
 #define ANYBOT(s, x) (c_bot(s) || c_bot(x))
 #define IN2(s, x) (c_has(s, g_x) && c_has(x, g_y))
 #define BOTSTRICT(r, s, x) IMP(ANYBOT(s, x), c_bot(r))
 
 /* ---------------------------------------------------------------- lemma sets (unbounded mode only; all are true) */
-/* normal form: for m = |a| != 0 and rb = fmod_(b, a):  b - rb = m * qq with qq = b / m or b / m - 1 */
-static inline bool LS_NF(i128 a, i128 b){ i128 m = iabs(a); return K_DIV(b, m) && L_MULM1(m, D_(b, m)); }
-static inline i128 NFQ(i128 a, i128 b){ i128 m = iabs(a); return S_rem(b, m) < 0 ? D_(b, m) - 1 : D_(b, m); }
-/* the (a, b) constructor: rb = fmod_(b, a), m = |a|: m | v - rb  <=>  m | v - b */
-static inline bool LS_CTOR(i128 a, i128 b, i128 rb, i128 v){
-  i128 m = iabs(a), qq = NFQ(a, b), k = COF(m, v - b), k2 = COF(m, v - rb);
-  return LS_NF(a, b) && L_EXP(m, v - b) && K_DIST(m, k, qq) && L_CON(m, v - rb, k + qq)
-      && L_EXP(m, v - rb) && L_NEG(m, qq) && K_DIST(m, k2, -qq) && L_CON(m, v - b, k2 - qq); }
-/* r = gZ + (sb mod g) with g | a, g | a2, and v - sb = a*k + sg*a2*k2  ==>  g | v - r.b
- * (sum and difference: sb = b + sg*b2, k = (gx - b)/a, k2 = (gy - b2)/a2) */
-static inline bool LS_LIN(i128 g, i128 rb, i128 a, i128 a2, i128 k, i128 k2, i128 sg, i128 sb, i128 v){
-  i128 p = COF(g, a), p2 = COF(g, a2), w = M_(p, k), w2 = M_(p2, k2), t = w + (sg > 0 ? w2 : -w2), q = D_(sb, g);
-  return L_EXP(g, a) && L_EXP(g, a2) && K_ASSOC(g, p, k) && K_ASSOC(g, p2, k2) && L_NEG(g, w2) && K_DIST(g, w, sg > 0 ? w2 : -w2)
-      && LS_NF(g, sb) && K_DIST(g, t, q) && K_DIST(g, t, q - 1) && L_CON(g, v - rb, t + q) && L_CON(g, v - rb, t + q - 1); }
-/* gcd_helper, inductive step (used only by the manual --enforce-contract-rec run): TODO instances */
-#define LS_GCDH(x, y, r, d) 1
-#define KX(s) COF(c_a(s), g_x - c_b(s))
-#define KY(x) COF(c_a(x), g_y - c_b(x))
-#define LS_MEMB(s, x) (L_EXP(c_a(s), g_x - c_b(s)) && L_EXP(c_a(x), g_y - c_b(x)))
+/* r = gZ + (sb mod g) with g | a, g | a2;  gx in aZ+b, gy in a2Z+b2;  w = (gx - b) +/- (gy - b2) = v - sb  ==>  g | v - r.b */
+static inline bool LS_LIN(i128 g, i128 a, i128 b, i128 a2, i128 b2, i128 gx, i128 gy, i128 sg, i128 sb, i128 v){
+  return T_TRANS(g, a, gx - b) && T_TRANS(g, a2, gy - b2) && (sg > 0 ? T_SUM(g, gx - b, gy - b2, v - sb) : T_DIFF(g, gx - b, gy - b2, v - sb)) && T_NF(g, sb, v); }
+/* join: G = r.a divides a, a2 and |b - b2|; r.b = min(b, b2) mod G */
+static inline bool LS_JOIN(C r, C s, C x, i128 v){
+  i128 G = c_a(r), a = c_a(s), b = c_b(s), a2 = c_a(x), b2 = c_b(x), mn = imin(b, b2);
+  return T_TRANS(G, a, v - b) && T_TRANS(G, a2, v - b2) && T_SUM(G, v - b, b - mn, v - mn) && T_SUM(G, v - b2, b2 - mn, v - mn) && T_NF(G, mn, v); }
+/* widening: rank and stationarity */
+static inline bool LS_WIDEN(C r, C s, C x){
+  i128 G = c_a(r), a = c_a(s), b = c_b(s), b2 = c_b(x);
+  return T_SMALL(a, iabs(b - b2)) && T_DIFF(a, 0, b2 - b, b - b2) && T_SMALL(a, G); }
+/* aZ+b <= a2Z+b2 (a2 | a, a2 | b - b2) and v in aZ+b  ==>  v in a2Z+b2 */
+static inline bool LS_LEQ(C s, C x, i128 v){ return T_TRANS(c_a(x), c_a(s), v - c_b(s)) && T_SUM(c_a(x), v - c_b(s), c_b(s) - c_b(x), v - c_b(x)); }
+/* -(aZ+b) = aZ + (a - b) */
+static inline bool LS_NEG(C s, i128 gx){
+  i128 a = c_a(s), b = c_b(s), u = gx - b, sb = -b + a, v = -gx;
+  return T_DIFF(a, 0, u, -u) && T_DIFF(a, -u, a, v - sb) && T_NF(a, sb, v); }
 
 /* ---------------------------------------------------------------- constructors */
 #define POST_ctor_ab(r, a, b) (c_okz(r, CTB) && c_is(r, a, b))
-#define SOUND_ctor_ab(r, a, b) IMP(LEM(LS_CTOR(a, b, c_b(r), g_x)), c_has(r, g_x) == ab_has(a, b, g_x))
+#define SOUND_ctor_ab(r, a, b) IMP(LEM(T_NF(a, b, g_x)), c_has(r, g_x) == ab_has(a, b, g_x))
 
 /* ---------------------------------------------------------------- lattice */
 #define OKZ_join (2 * ZB)
 #define EXTRA_join(r, s, x) 1
-#define SOUND_join(r, s, x) IMP(c_has(s, g_x) || c_has(x, g_x), c_has(r, g_x))
+#define SOUND_join(r, s, x) IMP((c_has(s, g_x) || c_has(x, g_x)) && LEM(LS_JOIN(r, s, x, g_x)), c_has(r, g_x))
 #define OKZ_meet ZB2
 #define EXTRA_meet(r, s, x) 1
 #define SOUND_meet(r, s, x) IMP(c_has(s, g_x) && c_has(x, g_x), c_has(r, g_x))
@@ -48,20 +46,21 @@ static inline bool LS_LIN(i128 g, i128 rb, i128 a, i128 a2, i128 k, i128 k2, i12
  * (1 <= ret.a < self.a and ret.a | self.a): every chain of widenings is stationary after finitely many steps. */
 #define WIDEN_RANK(r, s) (c_eq(r, s) || c_bot(s) || (!c_bot(r) && (c_a(s) == 0 ? c_a(r) > 0 : (c_a(r) >= 1 && c_a(r) < c_a(s) && dvd(c_a(r), c_a(s))))))
 #define OKZ_widen (2 * ZB)
-#define EXTRA_widen(r, s, x) (IMP(c_leq(x, s), c_eq(r, s)) && WIDEN_RANK(r, s))
+/* (g_d is the ghost at which the gcd contracts state "greatest"; it is arbitrary, so the clause holds for g_d = self.a) */
+#define EXTRA_widen(r, s, x) IMP(LEM(LS_WIDEN(r, s, x)), IMP(c_leq(x, s) && g_d == c_a(s), c_eq(r, s)) && WIDEN_RANK(r, s))
 #define SOUND_widen(r, s, x) SOUND_join(r, s, x)
 /* narrowing of a decreasing pair still describes every state of its second argument (and stays below the first) */
 #define OKZ_narrow ZB
 #define EXTRA_narrow(r, s, x) IMP(c_leq(x, s), c_leq(r, s) && c_leq(x, r))
-#define SOUND_narrow(r, s, x) IMP(c_leq(x, s) && c_has(x, g_x), c_has(r, g_x))
+#define SOUND_narrow(r, s, x) IMP(c_leq(x, s) && c_has(x, g_x) && LEM(LS_LEQ(x, s, g_x)), c_has(r, g_x))
 
 /* ---------------------------------------------------------------- arithmetic */
 #define OKZ_add ZB2
 #define EXTRA_add BOTSTRICT
-#define SOUND_add(r, s, x) IMP(IN2(s, x) && LEM(LS_MEMB(s, x) && LS_LIN(c_a(r), c_b(r), c_a(s), c_a(x), KX(s), KY(x), 1, c_b(s) + c_b(x), g_x + g_y)), c_has(r, g_x + g_y))
+#define SOUND_add(r, s, x) IMP(IN2(s, x) && LEM(LS_LIN(c_a(r), c_a(s), c_b(s), c_a(x), c_b(x), g_x, g_y, 1, c_b(s) + c_b(x), g_x + g_y)), c_has(r, g_x + g_y))
 #define OKZ_sub ZB2
 #define EXTRA_sub BOTSTRICT
-#define SOUND_sub(r, s, x) IMP(IN2(s, x) && LEM(LS_MEMB(s, x) && LS_LIN(c_a(r), c_b(r), c_a(s), c_a(x), KX(s), KY(x), -1, c_b(s) - c_b(x), g_x - g_y)), c_has(r, g_x - g_y))
+#define SOUND_sub(r, s, x) IMP(IN2(s, x) && LEM(LS_LIN(c_a(r), c_a(s), c_b(s), c_a(x), c_b(x), g_x, g_y, -1, c_b(s) - c_b(x), g_x - g_y)), c_has(r, g_x - g_y))
 #define OKZ_mul ZB2
 #define EXTRA_mul BOTSTRICT
 #define SOUND_mul(r, s, x) IMP(IN2(s, x), c_has(r, S_mul(g_x, g_y)))
@@ -80,7 +79,7 @@ static inline bool LS_LIN(i128 g, i128 rb, i128 a, i128 a2, i128 k, i128 k2, i12
 #define EXTRA_urem(r, s, x) 1
 #define SOUND_urem(r, s, x) c_has(r, g_x)
 #define POST_neg(r, s) (c_okz(r, ZB2) && IMP(c_bot(s), c_bot(r)))
-#define SOUND_neg(r, s) IMP(c_has(s, g_x), c_has(r, -g_x))
+#define SOUND_neg(r, s) IMP(c_has(s, g_x) && LEM(LS_NEG(s, g_x)), c_has(r, -g_x))
 
 /* ---------------------------------------------------------------- bitwise (infinite-precision two's complement), shifts */
 #define OKZ_and (2 * ZB)
@@ -106,5 +105,5 @@ static inline bool LS_LIN(i128 g, i128 rb, i128 a, i128 a2, i128 k, i128 k2, i12
 #define SOUND_lshr(r, s, x) IMP(IN2(s, x) && g_y >= 0 && g_x >= 0, c_has(r, fshr(g_x, g_y)))
 
 /* ---------------------------------------------------------------- inclusion */
-#define SOUND_leq(rv, s, x) IMP((rv) && c_has(s, g_x), c_has(x, g_x))
+#define SOUND_leq(rv, s, x) IMP((rv) && c_has(s, g_x) && LEM(LS_LEQ(s, x, g_x)), c_has(x, g_x))
 #endif
